@@ -320,7 +320,8 @@ class C14(runner.Check):
             'machines with diagram support (GraphMachine/HierarchicalGraphMachine, mermaid), 1-3 models incl. '
             'the machine itself, 0-9 later modifications: add_states (single definitions and lists mixing compound and '
             'plain ones)/add_transition/remove_transition/dynamic callback '
-            'registration/model moves) x histories of 6-14 triggers; a case is non-trivial when a state slot and a '
+            'registration/model moves/read-only observers (diagram rendering incl. region of interest, get_transitions, '
+            'may_trigger, markup reads)/pickle and deepcopy restores) x histories of 6-14 triggers; a case is non-trivial when a state slot and a '
             'transition slot hold callbacks and the history executes at least one transition; distinct = different '
             'description')
     trusted = ('hand-written model lean/Model/Markup.lean tied to /repo by equality of the encoded markup '
@@ -350,7 +351,7 @@ class C14(runner.Check):
         technique="Lean 4 proof (mutual structural induction over the state tree, dict-regrouping lemma, dirty-flag "
                   "invariant) + differential correspondence + Python property oracle + behavioural differential")
 
-    streams = (('mixed', (16, 450), (64, 800)), ('clean', (16, 200), (32, 600)))
+    streams = (('mixed', (16, 360), (64, 800)), ('clean', (16, 160), (32, 600)))
 
     def explore(self, tier, seed):
         # whitelist hypotheses of C14_faithful_state / C14_faithful_transition_fields / C14_roundtrip_markup
